@@ -1,0 +1,174 @@
+//go:build verif
+
+package astconv
+
+// Contracts for govc (contract-based deductive verification, see /verif/DESIGN.md).
+// This file is compiled only with -tags verif and contains no executable code.
+
+// A token's text is what the lexer delivered (spec.tokenValue is the model field of a token).
+//@ iface ybase.Token.Value (t) returns (s)
+//@   pure
+//@   ensures s == spec.tokenValue(t)
+
+//@ define tv(t) spec.tokenValue(t)
+//@ define isLetterTok(s) s == "C" || s == "D" || s == "E" || s == "F" || s == "G" || s == "A" || s == "B"
+//@ define nameOf(s) ite(s == "C", note.C, ite(s == "D", note.D, ite(s == "E", note.E, ite(s == "F", note.F, ite(s == "G", note.G, ite(s == "A", note.A, ite(s == "B", note.B, note.UnknownName)))))))
+// the ASCII spelling of an accidental token (C11: # and the sharp sign, b and the flat sign are the same accidental)
+//@ define accAscii(t) ite(tv(t) == "♯", "#", ite(tv(t) == "♭", "b", tv(t)))
+//@ define accOf(s) ite(s == "#", op.Sharp, ite(s == "b", op.Flat, op.Natural))
+
+//@ func accidentalValue returns (s)
+//@   pure
+//@   requires t != nil
+//@   ensures s == accAscii(t)
+
+// a written note name: its letter, and its accidental honoured whichever spelling was used
+//@ func SyllableChordConverter.newScaleNote returns (n, err)
+//@   allocs op.ScaleNote
+//@   requires v != nil && v.Degree != nil
+//@   ensures (err == nil) == isLetterTok(tv(v.Degree))
+//@   ensures err == nil ==> n != nil && fresh(n) && n.Name == nameOf(tv(v.Degree))
+//@   ensures err == nil ==> n.Accidental == ite(v.Accidental == nil, op.Natural, accOf(accAscii(v.Accidental)))
+
+// ---- note names to degrees in the converter's current key (C03, C05) ----
+
+//@ define wfConvScale(s) s != nil && forall(i, 0, 7, s.Notes[i] != nil && op.validSN(s.Notes[i]))
+//@ define wfDegTok(d) d != nil && d.Degree != nil
+//@ define tokLetter(d) note.letter(nameOf(tv(d.Degree)))
+//@ define tokAcc(d) op.kacc(ite(d.Accidental == nil, op.Natural, accOf(accAscii(d.Accidental))))
+// x is the interval from (l0, a0) up to the written note d: its number is the letter distance, its size the pitch distance
+//@ define measures(x, l0, a0, d) x.Value == spec.simpleNumber(tokLetter(d) - l0 + 1) && spec.validInterval(x.Value, note.qual(x.Name)) && spec.intervalSize(x.Value, note.qual(x.Name)) == spec.ascLetterDist(l0, tokLetter(d)) + tokAcc(d) - a0
+
+//@ func SyllableChordConverter.getTendency returns (t, err)
+//@   pure
+//@   requires wfConvScale(c.scale) && v != nil && op.validSN(v)
+//@   ensures err == nil ==> op.validKAcc(t)
+
+// the root is measured from the tonic of the converter's key, the bass from the root
+//@ func SyllableChordConverter.convertChordDegree returns (err)
+//@   modifies result
+//@   allocs op.ScaleNote, note.Degree
+//@   requires wfConvScale(c.scale) && result != nil && wfDegTok(v) && (base != nil ==> wfDegTok(base.Degree))
+//@   ensures err == nil ==> isLetterTok(tv(v.Degree)) && measures(result.Degree, note.letter(c.scale.Notes[0].Name), op.kacc(c.scale.Notes[0].Accidental), v)
+//@   ensures err == nil && base == nil ==> result.Base == old(result.Base)
+//@   ensures err == nil && base != nil ==> result.Base != nil && isLetterTok(tv(base.Degree.Degree)) && measures(*result.Base, tokLetter(v), tokAcc(v), base.Degree)
+//@   ensures result.Chord == old(result.Chord)
+
+//@ func SyllableChordConverter.Convert returns (r, err)
+//@   allocs input.Chord, op.ScaleNote, note.Degree
+//@   requires wfConvScale(c.scale) && v != nil && wfDegTok(v.Degree) && (v.Base != nil ==> wfDegTok(v.Base.Degree)) && (v.Symbol != nil ==> v.Symbol.Symbol != nil)
+//@   ensures err == nil ==> r != nil && fresh(r) && r.Chord == ite(v.Symbol == nil, "", tv(v.Symbol.Symbol))
+//@   ensures err == nil ==> measures(r.Degree, note.letter(c.scale.Notes[0].Name), op.kacc(c.scale.Notes[0].Accidental), v.Degree)
+//@   ensures err == nil ==> (r.Base != nil) == (v.Base != nil)
+//@   ensures err == nil && v.Base != nil ==> measures(*r.Base, tokLetter(v.Degree), tokAcc(v.Degree), v.Base.Degree)
+
+// ---- degree notation: the number and accidental as written, read by note.ParseDegree (C05, C11) ----
+
+//@ define degText(d) tv(d.Degree) + ite(d.Accidental == nil, "", accAscii(d.Accidental))
+//@ define reads(x, d) x.Value == spec.pdNum(degText(d)) && x.Name == spec.pdName(degText(d))
+
+//@ func DegreeChordConverter.convertDegree returns (d, err)
+//@   pure
+//@   requires wfDegTok(v)
+//@   ensures (err == nil) == spec.pdOk(degText(v))
+//@   ensures err == nil ==> reads(d, v)
+
+//@ func DegreeChordConverter.Convert returns (r, err)
+//@   allocs input.Chord, note.Degree
+//@   requires v != nil && wfDegTok(v.Degree) && (v.Base != nil ==> wfDegTok(v.Base.Degree)) && (v.Symbol != nil ==> v.Symbol.Symbol != nil)
+//@   ensures (err == nil) == (spec.pdOk(degText(v.Degree)) && (v.Base != nil ==> spec.pdOk(degText(v.Base.Degree))))
+//@   ensures err == nil ==> r != nil && fresh(r) && r.Chord == ite(v.Symbol == nil, "", tv(v.Symbol.Symbol)) && reads(r.Degree, v.Degree)
+//@   ensures err == nil ==> (r.Base != nil) == (v.Base != nil)
+//@   ensures err == nil && v.Base != nil ==> reads(*r.Base, v.Base.Degree)
+
+// ---- durations: numerator and optional denominator as written; zero refused (C09) ----
+
+//@ func ValuesConverterImpl.convertValue returns (r, err)
+//@   pure
+//@   requires v != nil && v.Num != nil
+//@   ensures err == nil ==> r.Num >= 1 && r.Denom >= 1
+
+// ---- settings written as metadata: nonsense refused where it is first interpreted (C09) ----
+
+//@ func MetaInstanceModifierImpl.convertBPM returns (r, err)
+//@   allocs op.BPM
+//@   requires meta != nil
+//@   ensures err == nil ==> r != nil && fresh(r) && *r != 0
+
+//@ func MetaInstanceModifierImpl.convertVelocity returns (r, err)
+//@   allocs op.DynamicSign
+//@   requires meta != nil
+//@   ensures err == nil ==> r != nil && fresh(r) && op.validDyn(*r)
+
+//@ func MetaInstanceModifierImpl.convertMeter returns (r, err)
+//@   allocs op.Meter
+//@   requires meta != nil
+//@   ensures err == nil ==> r != nil && fresh(r) && r.Num >= 1 && r.Denom >= 1
+
+//@ func MetaInstanceModifierImpl.convertKey returns (r, err)
+//@   allocs op.Key
+//@   requires meta != nil
+//@   ensures err == nil ==> r != nil && fresh(r)
+
+//@ func MetaInstanceModifierImpl.Modify returns (err)
+//@   modifies v
+//@   allocs op.BPM, op.DynamicSign, op.Meter, op.Key
+//@   requires v != nil
+//@   ensures v.Chord == old(v.Chord) && v.Values == old(v.Values) && v.Meta == old(v.Meta)
+//@   ensures err == nil ==> v.BPM == old(v.BPM) || (v.BPM != nil && fresh(v.BPM) && *v.BPM != 0)
+//@   ensures err == nil ==> v.Velocity == old(v.Velocity) || (v.Velocity != nil && fresh(v.Velocity) && op.validDyn(*v.Velocity))
+//@   ensures err == nil ==> v.Meter == old(v.Meter) || (v.Meter != nil && fresh(v.Meter) && v.Meter.Num >= 1 && v.Meter.Denom >= 1)
+//@   ensures err == nil ==> v.Key == old(v.Key) || (v.Key != nil && fresh(v.Key))
+
+// ---- one chord or rest: a key written on it applies from this very element onwards (C05) ----
+
+// what the converter's parts may touch (assumptions about every implementation; the shipped ones are verified against them)
+//@ iface MetaConverter.Convert (m, v) returns (r)
+//@   allocs op.Meta, map[string]string
+
+//@ iface MetaInstanceModifier.Modify (m, v, meta) returns (err)
+//@   modifies v
+//@   allocs op.BPM, op.DynamicSign, op.Meter, op.Key
+//@   requires v != nil
+//@   ensures v.Chord == old(v.Chord) && v.Values == old(v.Values) && v.Meta == old(v.Meta)
+//@   ensures err == nil ==> v.Key == old(v.Key) || (v.Key != nil && fresh(v.Key))
+
+//@ iface ValuesConverter.Convert (c, v) returns (r, err)
+//@   allocs []note.Value
+
+//@ iface ChordConverter.Convert (c, v) returns (r, err)
+//@   allocs input.Chord, op.ScaleNote, note.Degree
+//@   ensures err == nil ==> r != nil
+
+//@ iface ScaleChangeable.ChangeScale (c, scale)
+//@   modifies SyllableChordConverter
+//@   ensures is(c, *SyllableChordConverter) ==> as(c, *SyllableChordConverter).scale == scale
+
+//@ func SyllableChordConverter.ChangeScale
+//@   modifies c
+//@   requires c != nil
+//@   ensures c.scale == scale
+
+//@ define sylScale(c) as(c.chordConverter, *SyllableChordConverter).scale
+//@ define isSyl(c) is(c.chordConverter, *SyllableChordConverter) && as(c.chordConverter, *SyllableChordConverter) != nil
+
+// changeScale: an instance that carries a key switches a note-name converter to that key's scale, or fails if the key has none
+//@ func ASTConverter.changeScale returns (err)
+//@   modifies SyllableChordConverter
+//@   allocs op.Scale, op.ScaleNote
+//@   requires c != nil && v != nil && c.chordConverter != nil
+//@   ensures v.Key == nil ==> err == nil && (isSyl(c) ==> sylScale(c) == old(sylScale(c)))
+//@   ensures v.Key != nil && isSyl(c) ==> (err == nil) == op.supported(*v.Key)
+//@   ensures v.Key != nil && isSyl(c) && err == nil ==> sylScale(c) != nil && fresh(sylScale(c)) && sylScale(c).Key == *v.Key
+
+// Convert: chords and rests alike; the element's own chord is converted after the switch
+//@ func ASTConverter.Convert returns (r, err)
+//@   modifies SyllableChordConverter
+//@   allocs input.Instance, input.Chord, op.Scale, op.ScaleNote, note.Degree, op.Meta, map[string]string, op.BPM, op.DynamicSign, op.Meter, op.Key, []note.Value
+//@   requires c != nil && c.chordConverter != nil && c.valuesConverter != nil && c.metaConverter != nil && c.metaModifier != nil
+//@   requires is(v, *ast.Chord) ==> as(v, *ast.Chord) != nil
+//@   requires is(v, *ast.Rest) ==> as(v, *ast.Rest) != nil
+//@   ensures err == nil ==> r != nil && fresh(r)
+//@   ensures err == nil ==> (r.Chord != nil) == is(v, *ast.Chord)
+//@   ensures err == nil && isSyl(c) && r.Key != nil ==> sylScale(c) != nil && sylScale(c).Key == *r.Key
+//@   ensures err == nil && isSyl(c) && r.Key == nil ==> sylScale(c) == old(sylScale(c))
